@@ -7,7 +7,7 @@ from .t_reduce import unary
 
 
 def meth(name, kws, shapes, args=(), gen="f", cls="same", **flags):
-    unary("ndarray." + name, (lambda a, **kw: getattr(a, name)(*args, **kw)), kws, shapes, gen=gen, cls=cls, **flags)
+    unary("ndarray." + name, (lambda a, **kw: getattr(a, name)(*args, **kw)), kws, shapes, gen=gen, cls=cls, tag=(repr(args).replace(" ", "") + ":" if args else ""), **flags)
 
 
 AX = [{}, {"axis": 0}, {"axis": 1}, {"axis": -1, "keepdims": True}]
@@ -116,3 +116,4 @@ T("ndarray.__setitem__", "mask,q|(4,)", lambda a, v, m: _setitem(a, v, m), {"a":
 T("ndarray.__setitem__", "fancy,q|(2,3)", lambda a, v: _setitem(a, v, ([0, 1], [2, 0])), {"a": I("X", (2, 3)), "v": I("X", (2,))}, cls="none", inplace=("a",))
 for m, sh, kw in (("sum", (2, 3), {"axis": 0}), ("mean", (2, 3), {"axis": 0}), ("max", (2, 3), {"axis": 0}), ("cumsum", (4,), {})):
     T("ndarray." + m, f"out|{sh}", (lambda a, out, m=m, kw=kw: getattr(a, m)(out=out, **kw)), {"a": I("X", sh), "out": I("X", (3,) if sh == (2, 3) else sh, "zeros")}, inplace=("out",))
+meth("take", [{"mode": "clip"}], [(4,)], args=([-1, 2],))
